@@ -162,6 +162,11 @@ def viewsBody (kv : KV) : String :=
       | .panic => "res=panic(slice_len)"
       | .ub => "res=ub"
     match kv.getD "op" "" with
+    | "view" =>
+      match kv.getD "kind2" "" with
+      | "as_slice" => sh false (GA.MemBody.runViews false GA.Gen.SeqBody.asSlice ⟨n, l, 0⟩)
+      | "as_mut_slice" => sh true (GA.MemBody.runViews true GA.Gen.SeqBody.asMutSlice ⟨n, l, 0⟩)
+      | _ => "n/a"
     | "from_slice" => sh false (GA.MemBody.runViews false GA.Gen.SeqBody.fromSlice ⟨n, l, 0⟩)
     | "try_from_slice" => sh false (GA.MemBody.runViews false GA.Gen.SeqBody.tryFromSlice ⟨n, l, 0⟩)
     | "from_mut_slice" => sh true (GA.MemBody.runViews true GA.Gen.SeqBody.fromMutSlice ⟨n, l, 0⟩)
